@@ -5,6 +5,13 @@
 (* A reception is [id, f, t, rx]: its position in the arrival history, its *)
 (* frame, its timestamp in ticks (TicksPerMs ticks per millisecond; the    *)
 (* window logic works on truncated milliseconds Ms(t)) and its receiver.   *)
+(* An ARRIVAL is what one message on the input channel carries: usually    *)
+(* one reception, but a network feed (SeRo) hands over a frame with the    *)
+(* receptions of several of its sensors at once.  The receptions of one    *)
+(* arrival are consecutive in the history, share frame and timestamp, and  *)
+(* are processed as a unit (InsertMulti); the optional field `last` of a   *)
+(* reception says whether it is the last one its arrival carries (absent = *)
+(* TRUE: an arrival of one reception).                                     *)
 (*                                                                         *)
 (* Operational part (the reference model the property names):              *)
 (*   cache : open frames -> sequence of receptions (the frame's open group)*)
@@ -88,6 +95,24 @@ Insert(r) ==
   /\ now' = Ms(r.t)
   /\ UNCHANGED <<w, out, dropped>>
 
+(* an arrival carrying the receptions rs (a non-empty sequence, same frame  *)
+(* and timestamp, consecutive identifiers, `last` set on the final one):    *)
+(* all of them join the group before anything leaves                        *)
+RECURSIVE InsCacheAll(_, _, _)
+InsCacheAll(c, rs, i) == IF i > Len(rs) THEN c ELSE InsCacheAll(InsCache(c, rs[i]), rs, i + 1)
+WellFormedMulti(rs, n0) ==
+  /\ Len(rs) >= 1
+  /\ \A i \in DOMAIN rs : /\ rs[i].id = n0 + i /\ rs[i].f = rs[1].f /\ rs[i].t = rs[1].t
+                          /\ rs[i].last = (i = Len(rs))
+InsertMulti(rs) ==
+  /\ Settled /\ now # INF
+  /\ WellFormedMulti(rs, Len(hist))
+  /\ hist' = hist \o rs
+  /\ cache' = InsCacheAll(cache, rs, 1)
+  /\ heap' = InsHeap(cache, heap, rs[1], w)
+  /\ now' = Ms(rs[1].t)
+  /\ UNCHANGED <<w, out, dropped>>
+
 Pop ==
   \E e \in Poppable(heap, now) :
      LET g == Group(cache, e[2]) IN
@@ -149,10 +174,12 @@ PropShape(h, o) ==
 (* The window rule, from the history alone.  A group of frame f starts at  *)
 (* the first arrival s of f that is not in an earlier group; it closes at  *)
 (* the first arrival c >= s (of any frame) with Ms(t_c) >= Ms(t_s) + ww;   *)
-(* its members are the arrivals of f in s..c; c = 0: still open at the end *)
+(* its members are the receptions of f in s..c (all the receptions that    *)
+(* arrival c carries included); c = 0: still open at the end               *)
+IsLast(r) == IF "last" \in DOMAIN r THEN r.last ELSE TRUE
 CloseIdx(h, ww, s) ==                      \* first arrival >= s whose ms reaches the expiry, else 0
-  LET lim == Ms(h[s].t) + ww
-      C == {j \in s..Len(h) : Ms(h[j].t) >= lim}
+  LET lim == Ms(h[s].t) + ww               \* (named by the last reception that arrival carries)
+      C == {j \in s..Len(h) : Ms(h[j].t) >= lim /\ IsLast(h[j])}
   IN IF C = {} THEN 0 ELSE MinOf(C)
 NextOf(h, f, c) ==                         \* first arrival of frame f after position c, else 0
   LET S == {j \in (c + 1)..Len(h) : h[j].f = f}
